@@ -173,6 +173,15 @@ func main() {
 			if o2 := resample.Resample(orb.LineString(refgeom.Spare(ls)), df.f, N); refgeom.Bits(o2) != refgeom.Bits(out) {
 				c.Failf("layout-dependent", "%s gives %v for the line with spare capacity and %v for an exact-capacity copy | %s", call, o2, out, desc(call))
 			}
+			// euclidean metrics: the line scaled by a power of two (exact) resamples to the bit-for-bit scaled points
+			if df.scale > 0 {
+				for _, k := range []float64{1024, 1.0 / 64} {
+					sl, _ := refgeom.Scale(ls, k).(orb.LineString)
+					if o2 := resample.Resample(sl, df.f, N); !refgeom.Equal(o2, refgeom.Scale(out, k)) {
+						c.Failf("scaling", "%s of the line scaled by %v gives %v, unscaled %v | %s", call, k, o2, out, desc(call))
+					}
+				}
+			}
 		}
 		var ds []float64
 		ds = append(ds, -1, 0, 1, 2, 3, 4, 5, 7, 0.5, 0.375)
@@ -199,6 +208,14 @@ func main() {
 			out := resample.ToInterval(ls.Clone(), df.f, dd)
 			if o2 := resample.ToInterval(orb.LineString(refgeom.Spare(ls)), df.f, dd); refgeom.Bits(o2) != refgeom.Bits(out) {
 				c.Failf("layout-dependent", "%s gives %v for the line with spare capacity and %v for an exact-capacity copy | %s", call, o2, out, desc(call))
+			}
+			if df.scale > 0 {
+				for _, k := range []float64{1024, 1.0 / 64} {
+					sl, _ := refgeom.Scale(ls, k).(orb.LineString)
+					if o2 := resample.ToInterval(sl, df.f, dd*k); !refgeom.Equal(o2, refgeom.Scale(out, k)) {
+						c.Failf("scaling", "%s of the line and the interval scaled by %v gives %v, unscaled %v | %s", call, k, o2, out, desc(call))
+					}
+				}
 			}
 			if d <= 0 {
 				if out != nil {
